@@ -214,8 +214,9 @@ type caseResult struct {
 
 // signerFor lets a mode substitute the key manager of an operator (router mode: a recording one); onlyOp > 0 builds that operator alone.
 var (
-	signerFor func(id int) spectypes.KeyManager
-	onlyOp    int
+	signerFor   func(id int) spectypes.KeyManager
+	onlyOp      int
+	beforeStart func(v *validator.Validator) // hook between NewValidator and Start (router mode wraps the queues)
 )
 
 func buildWorld(p params, kind rkit.Kind, quick time.Duration) (*world, *glueBeacon, context.CancelFunc) {
@@ -255,6 +256,9 @@ func buildWorld(p params, kind rkit.Kind, quick time.Duration) (*world, *glueBea
 			}
 		}
 		v := validator.NewValidator(octx, ocancel, opts)
+		if beforeStart != nil {
+			beforeStart(v)
+		}
 		w.ops[id] = &operator{id: id, v: v, cancel: ocancel, db: db, w: w}
 	}
 	for id := 1; id <= p.n; id++ {
